@@ -1339,7 +1339,25 @@ def c07(idx: Index, rep: Report, tier: str) -> None:
     dnf_conjunctions_kept(idx, rep, "C07.7 T2 conjunction-dropped-only-if-false")
 
 
-EXTRA3 = {"C07": c07, "C12": c12, "C11": c11, "C10": c10, "C06": c06, "C04": c04, "C05": c05, "C01": c01, "C02": c02, "C03": c03, "C08": c08, "C35": c35, "C38": c38, "C36": c36, "C32": c32, "C33": c33, "C31": c31, "C17": c17, "C25": c25, "C20": c20, "C27": c27, "C28": c28}
+# ------------------------------------------------------------------------------------ C13
+def c13(idx: Index, rep: Report, tier: str) -> None:
+    """Inside a quantifier a pair (k -> v) may be applied only if that cannot capture: besides the variables of the
+    key k, the variables of the inserted value v must be compared with the bound variables (and the bound variable
+    renamed, or the pair set aside). Substituter consults get_free_variables(k) only."""
+    rule = "C13.5 T1 capture-avoidance-consults-the-inserted-values"
+    pw = idx.func("model.walkers.substituter.Substituter._push_with_children_to_stack")
+    loops = [l for l in walk_no_nested(pw.node) if isinstance(l, ast.For) and isinstance(l.target, ast.Tuple) and len(l.target.elts) == 2 and isinstance(l.iter, ast.Call) and call_name(l.iter) == "items"]
+    if not loops:
+        raise AnalysisError(f"{rule}: the loop over the substitution map was not found in _push_with_children_to_stack")
+    for l in loops:
+        kname, vname = (norm(x) for x in l.target.elts)
+        consulted = {norm(c.args[0]) for st in l.body for c in ast.walk(st) if isinstance(c, ast.Call) and call_name(c) == "get_free_variables" and c.args}
+        rep.check(kname in consulted, rule, "the free variables of each key are compared with the bound variables", pw.loc(l), construct=f"get_free_variables({kname})" if kname in consulted else f"consults {sorted(consulted)}", function=pw.qualname)
+        ok = vname in consulted
+        rep.check(ok, rule, "the free variables of each inserted value are compared with the bound variables", pw.loc(l), construct=f"get_free_variables({vname})" if ok else f"the loop over the map consults get_free_variables of {sorted(consulted)} only, never of the value", detail="" if ok else "a value that mentions a variable with the name of a variable bound inside the expression is inserted under that quantifier and captured: substituting x := y in `Forall y. q(x, y)` gives `Forall y. q(y, y)`; Simplifier.walk_exists relies on this substitution, so `Exists x. (x == y and Forall y. q(x, y))` simplifies to `Forall y. q(y, y)`", function=pw.qualname)
+
+
+EXTRA3 = {"C13": c13, "C07": c07, "C12": c12, "C11": c11, "C10": c10, "C06": c06, "C04": c04, "C05": c05, "C01": c01, "C02": c02, "C03": c03, "C08": c08, "C35": c35, "C38": c38, "C36": c36, "C32": c32, "C33": c33, "C31": c31, "C17": c17, "C25": c25, "C20": c20, "C27": c27, "C28": c28}
 
 
 def run_extra3(prop: str, idx: Index, rep: Report, tier: str) -> None:
